@@ -82,7 +82,65 @@ fn decls() -> Vec<Decl> {
         // an empty type and a type with a constructor that no value can have (only used by the `uninhabited` family)
         Decl { name: "Void", ctors: vec![] },
         Decl { name: "DeadLive", ctors: vec![("+Dead", T::Data(11)), ("+Live", b())] },
+        // one constructor (only used by the `alias` family)
+        Decl { name: "BoxB", ctors: vec![("+Box", b())] },
+        Decl { name: "BoxOpt", ctors: vec![("+BoxO", T::Data(2))] },
     ]
+}
+
+/// Alias patterns `(_; p)` anywhere in the arms. The checker currently requires alias members to be irrefutable and rejects
+/// the others with a type error (an expressivity limit it states itself), so for arms with a refutable alias member only
+/// soundness is judged: an accepted match must be exhaustive and take the reference arm.
+fn run_alias(cfg: &Cfg, index: u64, stats: &mut Stats) {
+    let ds = decls();
+    let mut rng = Rng::for_case(cfg.seed, "C04/alias", index);
+    let b = || T::Data(0);
+    let types: Vec<(&str, T)> = vec![
+        ("BoxB", T::Data(13)),
+        ("BoxOpt", T::Data(14)),
+        ("BoxBxBool", T::Prod(vec![T::Data(13), b()])),
+        ("OptB", T::Data(2)),
+        ("BoolxBool", T::Prod(vec![b(), b()])),
+        ("PQ", T::Data(3)),
+    ];
+    let (tname, t) = &types[rng.below(types.len())];
+    fn with_alias(rng: &mut Rng, p: P) -> P {
+        let p = match p {
+            | P::Ctor(d, c, q) => P::Ctor(d, c, Box::new(with_alias(rng, *q))),
+            | P::Tuple(ps) => P::Tuple(ps.into_iter().map(|q| with_alias(rng, q)).collect()),
+            | other => other,
+        };
+        if rng.chance(1, 3) { P::Alias(Box::new(p)) } else { p }
+    }
+    let n = 1 + rng.below(3);
+    let mut arms: Vec<P> = (0..n)
+        .map(|_| {
+            let depth = 1 + rng.below(3);
+            let p = random_pattern(&mut rng, t, &ds, depth);
+            with_alias(&mut rng, p)
+        })
+        .collect();
+    if rng.chance(1, 5) {
+        arms.push(P::Wild);
+    }
+    // at least one alias somewhere
+    if !arms.iter().any(|p| format!("{:?}", p).contains("Alias")) {
+        let k = rng.below(arms.len());
+        arms[k] = P::Alias(Box::new(arms[k].clone()));
+    }
+    let arms_text = arms.iter().map(|p| pattern_text(p, t, &ds)).collect::<Vec<_>>().join(" | ");
+    stats.nontrivial(format!("alias/{}/{}", tname, arms_text).as_bytes());
+    stats.cover("alias_types", tname);
+    let refutable_alias = arms.iter().any(|p| p.has_refutable_alias());
+    stats.count(if refutable_alias { "alias_with_refutable_member" } else { "alias_with_irrefutable_member" });
+    if let Some((signature, problem, sources)) = judge(tname, t, &arms, stats) {
+        // completeness is not judged where the checker states its own limit
+        if refutable_alias && matches!(signature.as_str(), "exhaustive-match-rejected" | "exhaustive-match-program-rejected" | "non-exhaustive-match-rejected-without-coverage-error") {
+            stats.count("alias_refutable_member_rejected_by_stated_limit");
+            return;
+        }
+        report(stats, "alias", index, tname, arms_text, (signature, problem, sources));
+    }
 }
 
 /// Matches over types with an uninhabited component: (name, type, arms). Brute force sees that `+Dead(_)` and a tuple
@@ -247,6 +305,8 @@ enum P {
     Unit,
     Ctor(usize, usize, Box<P>),
     Tuple(Vec<P>),
+    /// `(_; p)`: an alias pattern, matching exactly when `p` does
+    Alias(Box<P>),
 }
 
 impl P {
@@ -258,6 +318,24 @@ impl P {
             | P::Wild | P::Unit => 0,
             | P::Ctor(_, _, p) => 1 + p.depth(),
             | P::Tuple(ps) => ps.iter().map(|p| p.depth()).max().unwrap_or(0),
+            | P::Alias(p) => p.depth(),
+        }
+    }
+    /// contains an alias pattern with a member that is not a wildcard all the way down
+    fn has_refutable_alias(&self) -> bool {
+        fn refutable(p: &P) -> bool {
+            match p {
+                | P::Wild | P::Unit => false,
+                | P::Ctor(..) => true,
+                | P::Tuple(ps) => ps.iter().any(refutable),
+                | P::Alias(p) => refutable(p),
+            }
+        }
+        match self {
+            | P::Wild | P::Unit => false,
+            | P::Ctor(_, _, p) => p.has_refutable_alias(),
+            | P::Tuple(ps) => ps.iter().any(|p| p.has_refutable_alias()),
+            | P::Alias(p) => refutable(p),
         }
     }
 }
@@ -291,6 +369,7 @@ fn pattern_text(p: &P, t: &T, ds: &[Decl]) -> String {
     match (p, t) {
         | (P::Wild, _) => "_".into(),
         | (P::Unit, _) => "()".into(),
+        | (P::Alias(q), _) => format!("(_; {})", pattern_text(q, t, ds)),
         | (P::Ctor(d, c, q), _) => {
             let inner = pattern_text(q, &ds[*d].ctors[*c].1, ds);
             if inner.starts_with('(') { format!("{}{}", ds[*d].ctors[*c].0, inner) } else { format!("{}({})", ds[*d].ctors[*c].0, inner) }
@@ -376,6 +455,7 @@ fn matches(p: &P, v: &V) -> bool {
         | (P::Unit, V::Unit) => true,
         | (P::Ctor(_, c, q), V::Ctor(_, vc, w)) => c == vc && matches(q, w),
         | (P::Tuple(ps), V::Tuple(vs)) => ps.len() == vs.len() && ps.iter().zip(vs).all(|(p, v)| matches(p, v)),
+        | (P::Alias(q), _) => matches(q, v),
         | _ => false,
     }
 }
@@ -495,6 +575,7 @@ fn generators(cfg: &Cfg) -> Vec<Generator> {
         Generator { name: "comatch", total: comatch_cases().len() as u64, run: run_comatch, case_cpu_limit_s: 60 },
         Generator { name: "wide", total: cfg.tier.pick(600, 20_000), run: run_wide, case_cpu_limit_s: 120 },
         Generator { name: "uninhabited", total: uninhabited_cases().len() as u64, run: run_uninhabited, case_cpu_limit_s: 60 },
+        Generator { name: "alias", total: cfg.tier.pick(600, 20_000), run: run_alias, case_cpu_limit_s: 120 },
     ]
 }
 
